@@ -13,6 +13,7 @@ import (
 	"encoding/xml"
 	"fmt"
 	"io"
+	"regexp"
 	"sort"
 	"strings"
 
@@ -62,6 +63,7 @@ type recorder struct {
 	calls    []call
 	funcs    []marker // handlers registered through the Func variants
 	lastFunc int
+	errs     map[int]bool // which invoked registered handlers (by ordinal) return an error
 }
 
 type call struct {
@@ -77,10 +79,14 @@ type marker struct {
 	gen int // which registration attempt created this handler (histories)
 }
 
-func (m marker) read(t xml.TokenReader) {
+func (m marker) read(t xml.TokenReader) error {
 	c := 0
 	if m.rec.k < len(m.rec.cons) {
 		c = m.rec.cons[m.rec.k]
+	}
+	var ret error
+	if m.rec.errs[m.rec.k] {
+		ret = fmt.Errorf("E%d", m.rec.k)
 	}
 	m.rec.k++
 	cl := call{pat: m.pat, gen: m.gen}
@@ -95,23 +101,20 @@ func (m marker) read(t xml.TokenReader) {
 		}
 	}
 	m.rec.calls = append(m.rec.calls, cl)
+	return ret
 }
 
 func (m marker) HandleXMPP(t xmlstream.TokenReadEncoder, start *xml.StartElement) error {
-	m.read(t)
-	return nil
+	return m.read(t)
 }
 func (m marker) HandleIQ(iq stanza.IQ, t xmlstream.TokenReadEncoder, start *xml.StartElement) error {
-	m.read(t)
-	return nil
+	return m.read(t)
 }
 func (m marker) HandleMessage(msg stanza.Message, t xmlstream.TokenReadEncoder) error {
-	m.read(t)
-	return nil
+	return m.read(t)
 }
 func (m marker) HandlePresence(p stanza.Presence, t xmlstream.TokenReadEncoder) error {
-	m.read(t)
-	return nil
+	return m.read(t)
 }
 
 func optionOf(m marker) mux.Option {
@@ -358,9 +361,54 @@ func effectiveType(kind string, st xml.StartElement) string {
 	return string(p.Type)
 }
 
-// children sends one message / presence stanza through a real session whose
-// handler is the multiplexer and compares which handlers ran and what each read.
+// framedReader hands out a fixed token list.  framing "sep" reports io.EOF on a separate call
+// after the last token, "eof" returns the last token together with io.EOF (encoding/xml allows
+// both for a TokenReader; xmlstream.Token and xmlstream.MultiReader do the latter).
+var errList = regexp.MustCompile(`^E[0-9]+(, E[0-9]+)*$`)
+
+type framedReader struct {
+	toks    []xml.Token
+	i       int
+	framing string
+	wrote   int
+}
+
+func (f *framedReader) Token() (xml.Token, error) {
+	if f.i >= len(f.toks) {
+		return nil, io.EOF
+	}
+	t := f.toks[f.i]
+	f.i++
+	if f.i == len(f.toks) && f.framing == "eof" {
+		return t, io.EOF
+	}
+	return t, nil
+}
+func (f *framedReader) EncodeToken(xml.Token) error                       { f.wrote++; return nil }
+func (f *framedReader) Encode(interface{}) error                          { f.wrote++; return nil }
+func (f *framedReader) EncodeElement(interface{}, xml.StartElement) error { f.wrote++; return nil }
+
+func encInts(v []int) string {
+	cs := make([]string, len(v))
+	for i, x := range v {
+		cs[i] = fmt.Sprint(x)
+	}
+	return common.Join(cs, ",")
+}
+
+// children sends one message / presence stanza to the multiplexer in every mode: through a
+// real session, and directly (HandleXMPP on a token reader) with both end-of-input framings.
 func (c *ctx) children(ps []Pat, stanzaXML string, cons []int, class string) {
+	c.dispatch(ps, stanzaXML, cons, nil, "session", class)
+	c.dispatch(ps, stanzaXML, cons, nil, "sep", class)
+	c.dispatch(ps, stanzaXML, cons, nil, "eof", class)
+}
+
+// dispatch sends one message / presence stanza to the multiplexer and compares which handlers
+// ran and what each read.  mode "session": through a real session whose handler is the mux;
+// "sep" / "eof": HandleXMPP is called directly on a framedReader of that framing, and the
+// invoked registered handlers whose ordinal is in errs return an error.
+func (c *ctx) dispatch(ps []Pat, stanzaXML string, cons []int, errs []int, mode string, class string) {
 	r := c.r
 	ns := c08.NSClient
 	body := []byte(stanzaXML + "</stream:stream>")
@@ -378,19 +426,45 @@ func (c *ctx) children(ps []Pat, stanzaXML string, cons []int, class string) {
 	}
 	typ := effectiveType(kind, st)
 	stanzaToks := toks[:len(toks)-1]
-	cs := make([]string, len(cons))
-	for i, v := range cons {
-		cs[i] = fmt.Sprint(v)
+	var line string
+	if mode == "session" {
+		line = strings.Join([]string{"children", kind, field(typ), encPats(ps), common.EncToks(stanzaToks), encInts(cons)}, " ")
+	} else {
+		line = strings.Join([]string{"direct", mode, kind, field(typ), encPats(ps), common.EncToks(stanzaToks), encInts(cons), encInts(errs)}, " ")
+		class += "-" + mode
 	}
-	line := strings.Join([]string{"children", kind, field(typ), encPats(ps), common.EncToks(stanzaToks), common.Join(cs, ",")}, " ")
 	lines := []string{r.Prop + " " + line, "#stanza " + common.HexS(stanzaXML)}
-	rec := &recorder{cons: cons}
+	rec := &recorder{cons: cons, errs: map[int]bool{}}
+	for _, e := range errs {
+		rec.errs[e] = true
+	}
 	m, p := build(ns, ps, rec)
 	if p != "" {
 		r.Line(line, "BUILD-PANIC")
 		return
 	}
-	res := c08.Serve(ns, c08.LocalJID, c08.RemoteJID, body, nil, func(xmpp.Handler) xmpp.Handler { return m })
+	var res c08.Result
+	errObs := ""
+	if mode == "session" {
+		res = c08.Serve(ns, c08.LocalJID, c08.RemoteJID, body, nil, func(xmpp.Handler) xmpp.Handler { return m })
+	} else {
+		fr := &framedReader{toks: stanzaToks[1:], framing: mode}
+		start := st.Copy()
+		var herr error
+		res.Panic = common.Recover(func() { herr = m.HandleXMPP(fr, &start) })
+		switch {
+		case herr == nil:
+			errObs = "|err=-"
+		case errList.MatchString(herr.Error()):
+			errObs = "|err=" + strings.ReplaceAll(strings.ReplaceAll(herr.Error(), ", ", ","), "E", "")
+		default:
+			errObs = "|err=other"
+			res.Err = herr
+		}
+		if fr.wrote > 0 {
+			errObs += "|wrote"
+		}
+	}
 	if res.Panic != "" || res.Stall {
 		r.Line(line, "PANIC-OR-STALL")
 		r.Fail("no-panic", "panic", lines, res.Panic)
@@ -400,12 +474,17 @@ func (c *ctx) children(ps []Pat, stanzaXML string, cons []int, class string) {
 	for _, cl := range rec.calls {
 		obs = append(obs, cl.pat.Enc()+"="+common.EncToks(cl.toks))
 	}
-	r.Line(line, common.Join(obs, "/"))
+	r.Line(line, common.Join(obs, "/")+errObs)
 	r.Case(line, len(rec.calls) > 0, fmt.Sprintf("%s/children-%s/%d", class, kind, len(rec.calls)))
 
 	// ---- property clauses ------------------------------------------------------------
 	fail := func(clause, key, detail string) { r.Fail(clause, key, lines, detail) }
-	if cls := c08.ErrClass(res.Err); cls != "clean" {
+	if mode != "session" {
+		if res.Err != nil {
+			fail("dispatch-ok", "dispatch-error/"+mode, fmt.Sprintf("HandleXMPP returned %v", res.Err))
+			return
+		}
+	} else if cls := c08.ErrClass(res.Err); cls != "clean" {
 		fail("dispatch-ok", "serve-error", fmt.Sprintf("Serve ended with %s (%v)", cls, res.Err))
 		return
 	}
@@ -1236,6 +1315,18 @@ func decPat(s string) (Pat, error) {
 	return Pat{Kind: f[0], Typ: un(f[1]), Name: xml.Name{Space: un(f[2]), Local: un(f[3])}}, nil
 }
 
+func decInts(s string) []int {
+	var out []int
+	if s != "-" {
+		for _, x := range strings.Split(s, ",") {
+			var v int
+			fmt.Sscan(x, &v)
+			out = append(out, v)
+		}
+	}
+	return out
+}
+
 func decPats(s string) ([]Pat, error) {
 	if s == "-" {
 		return nil, nil
@@ -1370,15 +1461,18 @@ func (c *ctx) replay(lines []string) error {
 				return err
 			}
 			sx, _ := common.UnHex(strings.TrimPrefix(lines[i+1], "#stanza "))
-			var cons []int
-			if f[6] != "-" {
-				for _, x := range strings.Split(f[6], ",") {
-					var v int
-					fmt.Sscan(x, &v)
-					cons = append(cons, v)
-				}
+			cons := decInts(f[6])
+			c.dispatch(ps, string(sx), cons, nil, "session", "replay")
+		case "direct":
+			if len(f) != 9 || i+1 >= len(lines) || !strings.HasPrefix(lines[i+1], "#stanza ") {
+				continue
 			}
-			c.children(ps, string(sx), cons, "replay")
+			ps, err := decPats(f[5])
+			if err != nil {
+				return err
+			}
+			sx, _ := common.UnHex(strings.TrimPrefix(lines[i+1], "#stanza "))
+			c.dispatch(ps, string(sx), decInts(f[7]), decInts(f[8]), f[2], "replay")
 		}
 	}
 	return nil
